@@ -58,6 +58,17 @@ class HarnessBug(Exception):
     pass
 
 
+class _Timeout(BaseException):
+    """watchdog: one case may not run longer than CASE_TIMEOUT seconds"""
+
+
+CASE_TIMEOUT = 10
+
+
+def _on_alarm(signum, frame):
+    raise _Timeout()
+
+
 class _Abort(BaseException):
     """The real code already broke the property in this run and now behaves in ways the stepper
     cannot follow (e.g. a task resumed by a stale handle): stop the case, keep the findings."""
@@ -554,6 +565,9 @@ class World:
     def deliver(self, wid, e):
         code = self.exc_code(e)
         self.log.append(f"{wid}:{code}")
+        if code.startswith("?"):
+            # nothing in a worker raises this by itself: it came out of asynkit's machinery
+            self.problem(f"task_throw / task_interrupt machinery raised {type(e).__name__}", repr(e)[:200])
         if isinstance(e, (IntrPlain, IntrCancel)):
             hit = False
             for th in self.throws:
@@ -581,6 +595,8 @@ class World:
                 await self.do_op(wid, op)
             except BaseException as e:
                 if isinstance(e, GeneratorExit):
+                    raise
+                if isinstance(e, _Timeout):
                     raise
                 if isinstance(e, (HarnessBug, core.InfraError, _Pause)):
                     self.bug = e
@@ -825,6 +841,13 @@ class World:
                     self.loop.run_forever()
                 except _Pause:
                     pass
+                except (HarnessBug, core.InfraError):
+                    raise
+                except Exception as e:
+                    # an exception escaped run_forever: the loop itself broke (e.g. a handle vanished
+                    # from the ready queue under _run_once)
+                    self.problem("event loop crashed", repr(e)[:200])
+                    raise _Abort()
             self.drain()
             self.final_checks()
         except _Abort:
@@ -853,7 +876,13 @@ class World:
                 if not self.ready_list():
                     break
                 loop.call_soon(loop.stop)
-                loop.run_forever()
+                try:
+                    loop.run_forever()
+                except (HarnessBug, core.InfraError):
+                    raise
+                except Exception as e:
+                    self.problem("event loop crashed", repr(e)[:200])
+                    raise _Abort()
             if all(t.done() for t in self.tasks) and not self.ready_list():
                 return
         stuck = [i for i, t in enumerate(self.tasks) if not t.done()]
@@ -900,8 +929,19 @@ class World:
 
 
 def run_case(case, trace=True):
+    import signal
     w = World(case, trace=trace)
-    w.run()
+    old = signal.signal(signal.SIGALRM, _on_alarm)
+    signal.alarm(CASE_TIMEOUT)
+    try:
+        w.run()
+    except _Timeout:
+        if not w.problems:
+            raise core.InfraError(f"case did not finish within {CASE_TIMEOUT}s: {str(case)[:300]}")
+        w.tags.add("case-hung-after-violation")   # findings recorded before the hang are kept
+    finally:
+        signal.alarm(0)
+        signal.signal(signal.SIGALRM, old)
     return w
 
 
